@@ -46,6 +46,12 @@ type vfC15Case struct {
 	// Conc > 1: that many goroutines iterate the SAME prepared statement at the same time, each with its own bound
 	// key; the node releases the answers of a page level together.
 	Conc int `json:"conc"`
+	// Starts: the paging-state token the Query holds in each execution of the plan (Rebind 2 = Bind(values) only
+	// before executions 2, 3: the Query then holds none)
+	Starts []int `json:"starts"`
+	// Pin: "error" | "lost": the query is pinned to one connection of a two-node session (Conn.query); the failing
+	// page fails by an ERROR answer / because that connection is lost after the page before it. "no": not pinned.
+	Pin string `json:"pin"`
 }
 
 // vfC15Req is a QUERY / EXECUTE body decoded field by field in the order of native_protocol_v4.spec section 4.1.4
@@ -125,10 +131,16 @@ func vfC15Decode(f *vfFrame) *vfC15Req {
 	return q
 }
 
-type vfC15Rethrow struct{}
+// vfC15Policy: a RetryPolicy with a fixed verdict (Retry: once).
+type vfC15Policy struct{ t RetryType }
 
-func (vfC15Rethrow) Attempt(RetryableQuery) bool  { return true }
-func (vfC15Rethrow) GetRetryType(error) RetryType { return Rethrow }
+func (p vfC15Policy) Attempt(q RetryableQuery) bool {
+	if p.t == Retry {
+		return q.Attempts() <= 1
+	}
+	return true
+}
+func (p vfC15Policy) GetRetryType(error) RetryType { return p.t }
 
 type vfC15Obs struct{ n int64 }
 
@@ -173,9 +185,13 @@ const vfC15MaxRows = 64 // the consumer gives up beyond this many rows (runaway 
 // vfC15Run is one execution of a case.
 type vfC15Run struct {
 	c       vfC15Case
-	exec    int // 1-based execution of the plan
-	member  int // concurrent cases: 1-based goroutine number (0 otherwise)
+	exec    int          // 1-based execution of the plan
+	member  int          // concurrent cases: 1-based goroutine number (0 otherwise)
+	failTok int          // token of the request last answered with the scripted failure, +1 (0: none)
+	mkIter  func() *Iter // pinned cases: how the iterator is obtained (Conn.query) instead of q.Iter()
+	pinConn *Conn        // ... and the connection it is pinned to
 	grp     *vfC15Group
+	w       *vfC15Worker
 	id      int // trace id
 	tr      *vfTracer
 	mu      sync.Mutex
@@ -243,14 +259,23 @@ func (g *vfC15Group) hold(level int, answer func()) {
 }
 
 type vfC15Worker struct {
-	id    int
-	sess  [4]*Session // [skip]: the sequential cases; [2+skip]: the concurrent cases (sessions of their own)
-	nodes [4]*vfNode
-	cur   atomic.Value // *vfC15Run
-	churn [2]*Query
-	stale int64    // requests that belong to no running iteration
-	late  int64    // ... of which: prefetches of iterators the caller had abandoned (expected; nobody waits for them)
-	abJob sync.Map // jobs in which the caller abandoned an iterator
+	id     int
+	sess   [4]*Session // [skip]: the sequential cases; [2+skip]: the concurrent cases (sessions of their own)
+	nodes  [4]*vfNode
+	cur    atomic.Value // *vfC15Run
+	churn  [2]*Query
+	psess  *Session // two-node session for the pinned cases (made on first use)
+	pnodes [2]*vfNode
+	stale  int64    // requests that belong to no running iteration
+	late   int64    // ... of which: prefetches of iterators the caller had abandoned (expected; nobody waits for them)
+	abJob  sync.Map // jobs in which the caller abandoned an iterator
+}
+
+func (w *vfC15Worker) nodeIdx(n *vfNode) int {
+	if n != nil && n == w.pnodes[1] {
+		return 1
+	}
+	return 0
 }
 
 func (w *vfC15Worker) countStale(job int) {
@@ -290,14 +315,28 @@ func vfC15Tok3(job int, b []byte) (exec, k, member int) {
 		return 0, 0, 0
 	}
 	var j int
-	if n, err := fmt.Sscanf(string(b), "r%d:e%d:%d:m%d", &j, &exec, &k, &member); n != 4 || err != nil || j != job || k < 1 {
+	var node int
+	if n, err := fmt.Sscanf(string(b), "r%d:e%d:%d:m%d:n%d", &j, &exec, &k, &member, &node); n != 5 || err != nil || j != job || k < 1 {
 		return 0, -1, 0
 	}
 	return exec, k, member
 }
 
-func vfC15State(job, exec, tok, member int) []byte {
-	return []byte(fmt.Sprintf("r%d:e%d:%d:m%d", job, exec, tok, member))
+// vfC15TokNode: the node that issued the state (-1: not a state of ours)
+func vfC15TokNode(b []byte) int {
+	var j, e, k, m, node int
+	if n, err := fmt.Sscanf(string(b), "r%d:e%d:%d:m%d:n%d", &j, &e, &k, &m, &node); n != 5 || err != nil {
+		return -1
+	}
+	return node
+}
+
+func vfC15State(job, exec, tok, member int, node ...int) []byte {
+	n := 0
+	if len(node) > 0 {
+		n = node[0]
+	}
+	return []byte(fmt.Sprintf("r%d:e%d:%d:m%d:n%d", job, exec, tok, member, n))
 }
 
 func (w *vfC15Worker) handle(nc *vfNodeConn, f *vfFrame, q *vfRequest) bool {
@@ -336,6 +375,8 @@ func (w *vfC15Worker) handle(nc *vfNodeConn, f *vfFrame, q *vfRequest) bool {
 			tok = -1 // a request a server following the protocol specification cannot decode (or an empty state)
 		} else if tok > 0 && tmember != r.member {
 			tok = -2 // a paging state this node issued - to ANOTHER of the concurrent iterations
+		} else if tok > 0 && vfC15TokNode(d.State) != w.nodeIdx(nc.Node) {
+			tok = -3 // a paging state ANOTHER node issued
 		}
 		if d.Err == "" && tok > 0 && texec != 0 && texec != r.exec {
 			// a paging state the node issued during an EARLIER execution of this Query value: a prefetch of an
@@ -369,6 +410,13 @@ func (r *vfC15Run) onRequest(nc *vfNodeConn, f *vfFrame, q *vfC15Req, text strin
 	}
 	hflags := int(f.Flags)
 	r.mu.Lock()
+	if r.c.Opt == "retrysame" && r.failTok == tok+1 {
+		// the failed page asked for again on the RetryPolicy's verdict Retry: what retries look like is C13's
+		r.tr.Emit("retry", "run", r.id, "tok", tok)
+		r.mu.Unlock()
+		r.serve(nc, f, q, tok, 0, false)
+		return
+	}
 	r.nreq++
 	k := r.nreq
 	r.reqs = append(r.reqs, tok)
@@ -422,6 +470,9 @@ func (r *vfC15Run) serve(nc *vfNodeConn, f *vfFrame, q *vfC15Req, tok, k int, lo
 		return
 	}
 	if page == c.Fail {
+		r.mu.Lock()
+		r.failTok = tok + 1
+		r.mu.Unlock()
 		msg := fmt.Sprintf("vf-fail run=%d page=%d.", c.Run, page)
 		resp(page, 0, 0)
 		switch (c.Run + page) % 3 {
@@ -438,7 +489,7 @@ func (r *vfC15Run) serve(nc *vfNodeConn, f *vfFrame, q *vfC15Req, tok, k int, lo
 	var ps []byte
 	if page < len(c.Pages) {
 		next = page
-		ps = vfC15State(c.Run, r.exec, page, r.member)
+		ps = vfC15State(c.Run, r.exec, page, r.member, r.nodeIdx(nc))
 	}
 	cells := make([][][]byte, 0, c.Pages[page-1])
 	for i := 1; i <= c.Pages[page-1]; i++ {
@@ -453,6 +504,13 @@ func (r *vfC15Run) serve(nc *vfNodeConn, f *vfFrame, q *vfC15Req, tok, k int, lo
 		return
 	}
 	nc.Reply(f, vfOpResult, body)
+}
+
+func (r *vfC15Run) nodeIdx(nc *vfNodeConn) int {
+	if r.w != nil {
+		return r.w.nodeIdx(nc.Node)
+	}
+	return 0
 }
 
 func (r *vfC15Run) emitResp(page, ok, next int) {
@@ -501,6 +559,9 @@ func (w *vfC15Worker) close() {
 		if s != nil {
 			s.Close()
 		}
+	}
+	if w.psess != nil {
+		w.psess.Close()
 	}
 }
 
@@ -552,6 +613,81 @@ func vfC15Stmt(c *vfC15Case, member int) (stmt string, vals []interface{}) {
 	return
 }
 
+// pinSession: a session over two scripted nodes (both speak for this worker), made on first use, set-up retried.
+func (w *vfC15Worker) pinSession() (*Session, error) {
+	if w.psess != nil {
+		return w.psess, nil
+	}
+	var lastErr error
+	for attempt := 0; attempt < 4; attempt++ {
+		cl := &vfCluster{Partitioner: "org.apache.cassandra.dht.Murmur3Partitioner", Version: "3.11.4"}
+		d1, d2 := vfDesc(1), vfDesc(2)
+		cl.Set([]vfHostDesc{d1, d2})
+		n1, n2 := vfNewNode(cl, d1), vfNewNode(cl, d2)
+		n1.Handler, n2.Handler = w.handle, w.handle
+		dl := vfNewDialer(n1, n2)
+		cfg := vfClusterConfig(dl, 4, d1.Addr, d2.Addr)
+		cfg.disableControlConn = true
+		cfg.DisableInitialHostLookup = true
+		cfg.Timeout = 20 * time.Second
+		cfg.ConnectTimeout = 20 * time.Second
+		s, err := NewSession(*cfg)
+		if err != nil {
+			lastErr = err
+			time.Sleep(200 * time.Millisecond)
+			continue
+		}
+		w.psess, w.pnodes = s, [2]*vfNode{n1, n2}
+		return s, nil
+	}
+	return nil, lastErr
+}
+
+// runPinned: the query runs on ONE connection (Conn.query - the path of the driver's own system-table queries):
+// every page has to be asked for on that connection, and when it is gone the fetch fails.
+func (w *vfC15Worker) runPinned(c vfC15Case, seed int64) (results []vfC15Result, traces [][]map[string]interface{}) {
+	res := vfC15Result{Run: c.Run*8 + 1, Job: c.Run, Exec: 1, Stop: -1, QTok: -2, ID: c.ID, Reqs: []int{}, ReqF: []string{}, Rows: [][2]int{}}
+	s, err := w.pinSession()
+	if err != nil {
+		res.Env, res.Ended = "set-up of the two-node session failed: "+err.Error(), "aborted"
+		return []vfC15Result{res}, [][]map[string]interface{}{nil}
+	}
+	var conn *Conn
+	for wait := 0; wait < 40 && conn == nil; wait++ { // a connection lost in an earlier case is being re-established
+		for _, h := range s.ring.allHosts() {
+			if pool, ok := s.pool.getPool(h); ok {
+				if cn := pool.Pick(); cn != nil && !cn.Closed() {
+					conn = cn
+					break
+				}
+			}
+		}
+		if conn == nil {
+			time.Sleep(25 * time.Millisecond)
+		}
+	}
+	if conn == nil {
+		res.Env, res.Ended = "no connection in the two-node session", "aborted"
+		return []vfC15Result{res}, [][]map[string]interface{}{nil}
+	}
+	s.SetPageSize(c.Size)
+	s.SetPrefetch(float64(c.Q) / 4)
+	stmt, _ := vfC15Stmt(&c, 0)
+	r := &vfC15Run{c: c, exec: 1, id: c.Run*8 + 1, tr: vfNewTracer(), w: w}
+	r.ndelay, r.cpause, r.lpause = vfC15Sched(&c, seed+131)
+	r.mkIter = func() *Iter { return conn.query(context.Background(), stmt) }
+	r.pinConn = conn
+	w.cur.Store(&vfC15Group{job: c.Run, members: []*vfC15Run{r}})
+	res, evs := w.runExec(c, 1, nil, 0, seed, r)
+	if c.Pin == "lost" {
+		// the session has lost a connection for good (no reconnect interval): the next pinned case gets a new one
+		ps := w.psess
+		w.psess = nil
+		go ps.Close()
+	}
+	return []vfC15Result{res}, [][]map[string]interface{}{evs}
+}
+
 // runConc: Conc goroutines iterate the same prepared statement (one statement text, one cache entry), each with
 // its own bound key, at the same time; every one of them is a trace and a result of its own.
 func (w *vfC15Worker) runConc(c vfC15Case, seed int64) (results []vfC15Result, traces [][]map[string]interface{}) {
@@ -594,6 +730,9 @@ func (w *vfC15Worker) runCase(c vfC15Case, seed int64) (results []vfC15Result, t
 	if c.Conc > 1 {
 		return w.runConc(c, seed)
 	}
+	if c.Pin == "error" || c.Pin == "lost" {
+		return w.runPinned(c, seed)
+	}
 	stmt, vals := vfC15Stmt(&c, 0)
 	var callerState []byte
 	if c.Mode == "manual" && c.Start > 0 {
@@ -609,7 +748,13 @@ func (w *vfC15Worker) runCase(c vfC15Case, seed int64) (results []vfC15Result, t
 	case "spec": // speculative execution armed; the delay is far beyond any answer, no second attempt is ever started
 		q = q.Idempotent(true).SetSpeculativeExecutionPolicy(&SimpleSpeculativeExecution{NumAttempts: 1, TimeoutDelay: 5 * time.Minute})
 	case "retry": // a retry policy is present; it rethrows (what retries do to a failed page is C13's)
-		q = q.RetryPolicy(vfC15Rethrow{})
+		q = q.RetryPolicy(vfC15Policy{Rethrow})
+	case "retryignore":
+		q = q.RetryPolicy(vfC15Policy{Ignore})
+	case "retrynext":
+		q = q.RetryPolicy(vfC15Policy{RetryNextHost})
+	case "retrysame":
+		q = q.RetryPolicy(vfC15Policy{Retry})
 	case "ctx": // the usual ctx, cancel := ...; defer cancel()
 		ctx, cancel := context.WithCancel(context.Background())
 		defer cancel()
@@ -629,10 +774,13 @@ func (w *vfC15Worker) runCase(c vfC15Case, seed int64) (results []vfC15Result, t
 	}
 	for e := 1; e <= len(c.Plan); e++ {
 		if e > 1 && c.Rebind == 1 {
-			q = q.Bind(vals...) // documented: rebinding an existing query instance (it also forgets the page state)
-			if c.Mode == "manual" {
+			q = q.Bind(vals...) // documented: rebinding an existing query instance
+			if c.Mode == "manual" && c.Rebind == 1 {
 				q = q.PageState(callerState)
 			}
+		}
+		if e > 1 && c.Rebind == 2 {
+			q = q.Bind(vals...) // ... and nothing else: the Query holds the new arguments and no paging state
 		}
 		// odd single-execution cases hand the Query back to the pool - AFTER the iteration is over: doc.go ("Query
 		// values ... must not be modified after starting execution of the query") and the example at Query.Release
@@ -662,6 +810,10 @@ func (w *vfC15Worker) runExec(c vfC15Case, exec int, q *Query, rel int, seed int
 	if c.Kind == "SliceMap" {
 		stop = -1 // one call: it cannot stop early
 	}
+	start := c.Start
+	if exec-1 < len(c.Starts) {
+		start = c.Starts[exec-1]
+	}
 	if r == nil {
 		r = &vfC15Run{c: c, exec: exec, id: c.Run*8 + exec, tr: vfNewTracer()}
 		r.ndelay, r.cpause, r.lpause = vfC15Sched(&c, seed+int64(exec)*131)
@@ -669,8 +821,8 @@ func (w *vfC15Worker) runExec(c vfC15Case, exec int, q *Query, rel int, seed int
 	}
 	res := vfC15Result{Run: r.id, Job: c.Run, Exec: exec, Member: r.member, Stop: stop, QTok: -2, ID: c.ID, Reqs: []int{}, ReqF: []string{}, Rows: [][2]int{}}
 	r.tr.Emit("begin", "run", r.id, "id", c.ID, "pages", c.Pages, "q", c.Q, "kind", c.Kind, "fail", c.Fail, "mode", c.Mode,
-		"start", c.Start, "prep", c.Prep, "skip", c.Skip, "size", c.Size, "sched", c.Sched, "exec", exec, "stop", stop,
-		"rebind", c.Rebind, "opt", c.Opt, "member", r.member)
+		"start", start, "prep", c.Prep, "skip", c.Skip, "size", c.Size, "sched", c.Sched, "exec", exec, "stop", stop,
+		"rebind", c.Rebind, "opt", c.Opt, "member", r.member, "fkind", map[bool]string{true: "lost", false: "error"}[c.Pin == "lost"])
 
 	rows := [][2]int{}
 	row := func(p, i int, sv string, bv []byte) {
@@ -694,7 +846,18 @@ func (w *vfC15Worker) runExec(c vfC15Case, exec int, q *Query, rel int, seed int
 	}
 	// more asks whether the caller wants another row; stopped: it left of its own accord
 	stopped := false
+	lostAt := -1 // pinned + lost: the connection is closed when the last row of the page before the failing one is in
+	if c.Pin == "lost" && r.pinConn != nil && c.Fail >= 2 {
+		lostAt = 0
+		for _, n := range c.Pages[:c.Fail-1] {
+			lostAt += n
+		}
+	}
 	more := func() bool {
+		if lostAt >= 0 && len(rows) == lostAt {
+			lostAt = -1
+			r.pinConn.Close()
+		}
 		if stop >= 0 && len(rows) >= stop {
 			stopped = true
 			return false
@@ -716,7 +879,11 @@ func (w *vfC15Worker) runExec(c vfC15Case, exec int, q *Query, rel int, seed int
 				panicked = fmt.Sprintf("panic: %v", x)
 			}
 		}()
-		iter = q.Iter()
+		if r.mkIter != nil {
+			iter = r.mkIter()
+		} else {
+			iter = q.Iter()
+		}
 		if rel == 2 {
 			q.Release()
 			s := w.sess[c.Skip&1]
@@ -808,7 +975,7 @@ func (w *vfC15Worker) runExec(c vfC15Case, exec int, q *Query, rel int, seed int
 	}
 	// in-package look at what the execution left in the caller's Query
 	qtok := -2
-	if rel != 2 {
+	if rel != 2 && q != nil {
 		_, qtok = vfC15Tok(c.Run, q.pageState)
 	}
 	if rel == 1 && panicked == "" {
@@ -837,10 +1004,16 @@ func (w *vfC15Worker) runExec(c vfC15Case, exec int, q *Query, rel int, seed int
 				}
 			}
 		}
-		switch vfErrClass(err) {
-		// (a cancelled context is NOT environment: the harness cancels the caller's context only after the end)
-		case "timeout", "closed", "net":
-			res.Env = "environment error, not paging behaviour: " + msg
+		if c.Pin == "lost" && errpage == -1 && !strings.Contains(msg, "vf-") {
+			// the fetch after the loss of the pinned connection failed with the driver's own error (connection
+			// closed / write failed): that is the failure of page Fail being surfaced
+			errpage = c.Fail
+		} else {
+			switch vfErrClass(err) {
+			// (a cancelled context is NOT environment: the harness cancels the caller's context only after the end)
+			case "timeout", "closed", "net":
+				res.Env = "environment error, not paging behaviour: " + msg
+			}
 		}
 	} else if stopped {
 		normal, res.Ended = 2, "abandoned" // the caller stopped after `stop` rows; Close reported no error
